@@ -98,6 +98,9 @@ func TestC07NestedCoherent(t *testing.T) {
 	rapid.Check(t, func(t *rapid.T) {
 		wild := rapid.IntRange(0, 3).Draw(t, "wild") == 0
 		n := lookups.GenNested(t, lookups.NestedOptions{Wild: wild})
+		if n.MergeFocus {
+			stats.Label("nested-coherent", "merge-focus")
+		}
 		runNestedHistory(t, n.List, n.Gdef, n.Alphabet, n.NumCtx, wild, "nested-coherent")
 	})
 }
